@@ -39,7 +39,8 @@ def check(ctx, cases):
 
 def run(ctx):
     thorough = ctx.tier == "thorough"
-    base = {"MaxGroups": 3 if thorough else 2, "MaxSecs": 3 if thorough else 2, "TRIds": {1, 2}}
+    # (3 groups x 2 section groups: 262 560 documents; 3 x 3 would be 19 million)
+    base = {"MaxGroups": 3 if thorough else 2, "MaxSecs": 2, "TRIds": {1, 2}}
     invs = ["OneTractPerSection", "ReadingOrder", "Bounded"]
     ctx.tlc("PlssDoc", dict(base, Fault="none", EmitCases=False), invariants=invs, coverage=not thorough)
     if not thorough:
@@ -49,7 +50,7 @@ def run(ctx):
     res = ctx.tlc("PlssDoc", dict(base, Fault="none", EmitCases=True), invariants=["EmitCase"], workers=1, count=False)
     cases = []
     reps = 2 if thorough else 3
-    keep = 0.12 if thorough else 1.0
+    keep = 0.1 if thorough else 1.0
     for i, a in enumerate(res.cases):
         if ctx.rng.random() > keep:
             continue
@@ -63,7 +64,7 @@ def run(ctx):
     ctx.rule = ("documents = every shape (layout x Twp/Rge groups x section groups x list kind) reachable in "
                 "spec/PlssDoc.tla within %d groups x %d section groups%s; each rendered once plainly and %d times with "
                 "random documented spellings / separators / numbers / blocks; non-trivial = distinct rendered text" % (
-                    base["MaxGroups"], base["MaxSecs"], "" if not thorough else " (12% seeded sample)", reps))
+                    base["MaxGroups"], base["MaxSecs"], "" if not thorough else " (10% seeded sample)", reps))
     ctx.assumptions += ["rendering vocabularies of harness/render.py and the layout templates of harness/plssdoc.py",
                         "blocks contain no Twp/Rge or section wording and do not end in a culled word (of/the/in/and)",
                         "desc_STR groups are joined to their Twp/Rge by ', ', ' of ', ' in ' or a blank; "
